@@ -218,10 +218,22 @@ theorem C10_map_eq_hash {ck : α → α → Option Int} {cv : β → β → Opti
 
 /-! ## the object level: `cmp(a, b) = 0 → hash(a) = hash(b)` for every pair of values of the model -/
 
-/-- **eq ⇒ equal hashes for every pair of objects of the model**: scalars of every type, Arrays, Lists, Tuples (in any
-    combination of kinds) and Tables, Trees (in any combination), whatever their allocation class, address or history —
-    the hash is computed from the value alone. NaN-free values only (see `C10_float_nan_refuted`). -/
+/-- the full statement: eq ⇒ equal hashes for EVERY pair of NaN-free values. FALSE (`C10_eq_hash_seq_map_refuted`). -/
+def C10_eq_hash_statement : Prop :=
+  ∀ (addr : Nat → Bytes) (st : Store) (a b : Val), a.nanFree st → b.nanFree st →
+    valCmp addr st a b = some 0 → valHash addr st a = valHash addr st b
+
+/-- the territory of KF-C10-seq-map-eq: a sequence (Array, List, Tuple) on the left compared with a Table / Tree on the right -/
+def SeqVsMap (st : Store) (a b : Val) : Prop := (seqItems st a).isSome = true ∧ (mapEntries b).isSome = true
+
+instance (st : Store) (a b : Val) : Decidable (SeqVsMap st a b) := by unfold SeqVsMap; infer_instance
+
+/-- **eq ⇒ equal hashes for every pair of objects of the model** other than a sequence against a map: scalars of every type,
+    Arrays, Lists, Tuples (in any combination of kinds) and Tables, Trees (in any combination), whatever their allocation class,
+    address or history — the hash is computed from the value alone. NaN-free values only (see `C10_float_nan_refuted`); the one
+    excluded shape of operands is exactly where the statement fails (`C10_eq_hash_seq_map_refuted`). -/
 theorem C10_eq_hash (addr : Nat → Bytes) (st : Store) (a b : Val) (hna : a.nanFree st) (hnb : b.nanFree st)
+    (hsm : ¬ SeqVsMap st a b)
     (h : valCmp addr st a b = some 0) : valHash addr st a = valHash addr st b := by
   cases hsa : seqItems st a with
   | some xs =>
@@ -236,7 +248,9 @@ theorem C10_eq_hash (addr : Nat → Bytes) (st : Store) (a b : Val) (hna : a.nan
         h c₁ hc₁ c₂ hc₂
     | none =>
       exfalso
-      cases a <;> cases b <;> simp_all [valCmp, seqItems, mapEntries]
+      cases hmb : mapEntries b with
+      | some es => exact hsm ⟨by simp [hsa], by simp [hmb]⟩
+      | none => cases a <;> cases b <;> simp_all [valCmp, seqItems, mapEntries]
   | none =>
     cases hma : mapEntries a with
     | some xs =>
@@ -267,6 +281,34 @@ theorem C10_eq_hash (addr : Nat → Bytes) (st : Store) (a b : Val) (hna : a.nan
       | tuple ids => simp [mapEntries] at hma; simp_all [valCmp, seqItems, mapEntries]
       | table _ _ _ => simp [mapEntries] at hma
       | tree _ _ _ => simp [mapEntries] at hma
+
+/-- **known finding KF-C10-seq-map-eq**: `Array_Cmp` / `List_Cmp` / `Tuple_Cmp` walk the right operand with its iterator, and a
+    Table / Tree iterates its keys: the Array [2, 1] is eq to the Tree {2: 20, 1: 10}, the Array [1] and a Tuple holding 1 are eq to
+    the Table {1: 10} — while `Array_Hash` folds the elements and `Table_Hash` / `Tree_Hash` fold keys AND values: the hashes are
+    3 / 0x1d and 1 / 0xb. The model, which mirrors the five `Cmp`s and the five `Hash`es, violates the full statement. -/
+theorem C10_eq_hash_seq_map_refuted : ¬ C10_eq_hash_statement := by
+  intro h
+  have := h (fun _ => []) #[] (.seq .array .int [.int 2, .int 1])
+    (.tree .int .int (shOfEntries (fun _ => []) [(.int 1, .int 10), (.int 2, .int 20)]))
+    (by simp only [Val.nanFree]; decide) (by simp only [Val.nanFree]; decide) (by decide)
+  revert this
+  decide
+
+/-- the witnesses of the finding, with the values the C library prints (hash(arr) = 3, hash(tree) = 0x1d; 1 and 0xb) -/
+example :
+    let arr := Val.seq .array .int [.int 2, .int 1]
+    let tree := Val.tree .int .int (shOfEntries (fun _ => []) [(.int 1, .int 10), (.int 2, .int 20)])
+    let a1 := Val.seq .array .int [.int 1]
+    let tab := Val.table .int .int (tableOfEntries (fun _ => []) [(.int 1, .int 10)])
+    let st : Store := #[some ⟨.stack, .sc (.int 1), .stack⟩]
+    valCmp (fun _ => []) #[] arr tree = some 0 ∧ valHash (fun _ => []) #[] arr = 3 ∧ valHash (fun _ => []) #[] tree = 0x1d ∧
+    valCmp (fun _ => []) #[] a1 tab = some 0 ∧ valHash (fun _ => []) #[] a1 = 1 ∧ valHash (fun _ => []) #[] tab = 0xb ∧
+    valCmp (fun _ => []) st (.tuple [0]) tab = some 0 ∧ valHash (fun _ => []) st (.tuple [0]) = 1 ∧
+    valCmp (fun _ => []) #[] tree arr = none ∧ SeqVsMap #[] arr tree ∧ ¬ SeqVsMap #[] tree arr := by decide
+
+/-- the hypothesis excludes nothing else: an Array against a List, a Table against a Tree are not in the territory -/
+example : ¬ SeqVsMap #[] (.seq .array .int [.int 1]) (.seq .list .int [.int 1]) ∧
+    ¬ SeqVsMap #[] (.table .int .int Table.empty) (.tree .int .int .nil) ∧ ¬ SeqVsMap #[] (.sc (.int 1)) (.sc (.int 1)) := by decide
 
 /-- non-vacuity with wide entries: two Trees of different shapes holding the same Int → 24-byte-struct pairs are eq -/
 example : valCmp (fun _ => []) #[]
@@ -506,6 +548,26 @@ theorem C10_assign_eq (addr : Nat → Bytes) (st : Store) (cls : Cls) (self src 
     | tuple _ => exact absurd hcov (by simp [AssignCovered])
     | table _ _ _ => exact absurd hcov (by simp [AssignCovered])
 
+/-- the statement for EVERY assignment that is carried out (well-formed, NaN-free source). FALSE: `AssignCovered` leaves out
+    Table sources (KF-C10-table-cmp, see below), Tuple ← Array / List (the Tuple then points INTO the container: the model's
+    Tuples hold objects of the store only; ran by hand: eq and equal hashes) and Array / List ← Tuple, where it fails: -/
+def C10_assign_eq_statement : Prop :=
+  ∀ (addr : Nat → Bytes) (st : Store) (cls : Cls) (self src v : Val), SrcWellFormed addr st src → src.nanFree st →
+    assignVal addr st cls self src = .ok v → valCmp addr st v src = some 0
+
+/-- **known finding KF-C10-assign-from-tuple**: `Array_Assign` / `List_Assign` take the element type from `iter_type(obj)`, which a
+    Tuple does not implement — the type becomes `Ref` and every slot a reference to the Tuple's item. `assign(new(Array, Int),
+    tuple($I(7), $I(8)))` is an Array of two Refs; comparing it with the Tuple compares a Ref with an Int: TypeError, not eq. -/
+theorem C10_assign_from_tuple_refuted : ¬ C10_assign_eq_statement := by
+  intro h
+  have := h (fun _ => []) #[some ⟨.stack, .sc (.int 7), .stack⟩, some ⟨.stack, .sc (.int 8), .stack⟩] .heap
+    (.seq .array .int []) (.tuple [0, 1]) _ ⟨[.int 7, .int 8], rfl⟩ (by simp only [Val.nanFree]; decide) rfl
+  revert this
+  decide
+
+example : assignVal (fun _ => []) #[] .heap (.seq .list .int [.int 1]) (.tuple [0, 1]) =
+    .ok (.seq .list .ref [.ptr false 0, .ptr false 1]) := rfl
+
 /-- non-vacuity: assigning a List to an Array that held Strings -/
 example : assignVal (fun _ => []) #[] .heap (.seq .array .str [.str [1]]) (.seq .list .int [.int 5, .int 7]) =
     .ok (.seq .array .int [.int 5, .int 7]) := rfl
@@ -521,12 +583,6 @@ def kfTable0 : Table := tableOfEntries (fun _ => []) [(.int 4, .int 1), (.int 9,
 /-- the entries of a Table / Tree value in iteration order (`[]` for any other value) -/
 def Val.entriesD (v : Val) : List (Scalar × Scalar) := (mapEntries v).getD []
 
-
-/-- which self-assignments the statement covers: everything but a String (`String_Assign(s, s)` reallocates the buffer and then
-    copies from the old pointer: defined only if the block does not move) -/
-def SelfAssignCovered : Val → Prop
-  | .sc s => s.ty ≠ .str
-  | _ => True
 
 /-- a value compares eq to itself (a Tuple: when its items are scalar objects of the store) -/
 theorem valCmp_self (addr : Nat → Bytes) (st : Store) (v : Val) (hwf : ∀ ids, v = .tuple ids → ∃ xs, ids.mapM st.scalar = some xs) :
@@ -545,23 +601,24 @@ theorem valCmp_self (addr : Nat → Bytes) (st : Store) (v : Val) (hwf : ∀ ids
     exact mapCmp_self (scalarCmp_self addr) (scalarCmp_self addr) _
 
 /-- **assign(x, x) leaves x as it was** — whenever it is carried out (a stack Tuple refuses with ValueError, a Type refuses),
-    for Int, Float, plain structs, Ref, Box, Array, List, Tuple, Table (any slot layout) and Tree (any shape): the value is
-    unchanged, so it hashes as before and is eq to what it was. For Array / List / Table / Tree this is the early return
-    `if (self is obj) { return; }` the translator finds before the `Clear` call (fix a3140e4). -/
-theorem C10_assign_eq_self (addr : Nat → Bytes) (st : Store) (cls : Cls) (v v' : Val) (hcov : SelfAssignCovered v)
+    for Int, Float, String (every allocation class), plain structs, Ref, Box, Array, List, Tuple, Table (any slot layout) and Tree
+    (any shape): the value is unchanged, so it hashes as before and is eq to what it was. For Array / List / Table / Tree this is
+    the early return `if (self is obj) { return; }` the translator finds before the `Clear` call (fix a3140e4), for String the
+    early return `if (val is s->val) { return; }` it finds before the `realloc` and the class test (fix 744a45f). -/
+theorem C10_assign_eq_self (addr : Nat → Bytes) (st : Store) (cls : Cls) (v v' : Val)
     (h : assignSelfVal addr st cls v = .ok v') :
     v' = v ∧ valHash addr st v' = valHash addr st v ∧
     ((∀ ids, v = .tuple ids → ∃ xs, ids.mapM st.scalar = some xs) → valCmp addr st v' v = some 0) := by
   have hv : v' = v := by
     unfold assignSelfVal assignSelfValWith srcSelfGuards at h
     simp only [CelloGen.Hash.arrayAssignSelfGuard, CelloGen.Hash.listAssignSelfGuard, CelloGen.Hash.tableAssignSelfGuard,
-      CelloGen.Hash.treeAssignSelfGuard] at h
+      CelloGen.Hash.treeAssignSelfGuard, CelloGen.Hash.stringAssignSelfGuard, CelloGen.Hash.stringAssignSelfGuardFirst] at h
     cases v with
     | sc s =>
       cases s with
       | int x => simp [assignVal] at h; exact h.symm
       | float x => simp [assignVal] at h; exact h.symm
-      | str x => exact absurd rfl hcov
+      | str x => simp at h; exact h.symm
       | typ x => simp [assignVal] at h
       | ptr b t => simp [assignVal] at h; exact h.symm
       | raw k x => simp [assignVal] at h; exact h.symm
@@ -576,6 +633,19 @@ theorem C10_assign_eq_self (addr : Nat → Bytes) (st : Store) (cls : Cls) (v v'
   subst hv
   exact ⟨rfl, rfl, fun hwf => valCmp_self addr st _ hwf⟩
 
+/-- a String assigned to itself is carried out and changes nothing, on the stack as on the heap (the guard stands first) -/
+example : assignSelfVal (fun _ => []) #[] .stack (.sc (.str [97, 98])) = .ok (.sc (.str [97, 98])) ∧
+    assignSelfVal (fun _ => []) #[] .heap (.sc (.str [97, 98])) = .ok (.sc (.str [97, 98])) := ⟨rfl, rfl⟩
+
+/-- **`String_Assign` before fix 744a45f is refuted**: without the early return a heap String hands its buffer to `realloc` and
+    then `strcpy`s from the old pointer — `assign(s, s)` leaves the defined behaviour, no value eq to `s` is produced (and a stack
+    String refuses); with the guard of the source as it is now the same call returns the String unchanged -/
+theorem C10_string_assign_self_old_refuted :
+    assignSelfValWith oldStringSelfGuards (fun _ => []) #[] .heap (.sc (.str [97, 98])) = .error .undefined ∧
+    assignSelfValWith oldStringSelfGuards (fun _ => []) #[] .stack (.sc (.str [97, 98])) = .error .valueError ∧
+    assignSelfVal (fun _ => []) #[] .heap (.sc (.str [97, 98])) = .ok (.sc (.str [97, 98])) ∧
+    srcSelfGuards ≠ oldStringSelfGuards := ⟨rfl, rfl, rfl, by decide⟩
+
 /-- non-vacuity: a Table whose entries sit out of their home slots (keys 4 and 9 in 5 slots: `copy` of it is *not* eq,
     `C10_table_cmp_refuted`) is eq to itself after `assign(t, t)` -/
 example : (assignSelfVal (fun _ => []) #[] .heap (.table .int .int kfTable0)).toOption.map
@@ -588,7 +658,7 @@ example : (assignSelfVal (fun _ => []) #[] .heap (.table .int .int kfTable0)).to
 theorem C10_assign_self_unguarded_refuted :
     ∀ v ∈ [Val.seq .array .int [.int 7], Val.seq .list .int [.int 7],
            Val.table .int .int (tableOfEntries (fun _ => []) [(.int 7, .int 1)]), Val.tree .int .int (shOfEntries (fun _ => []) [(.int 7, .int 1)])],
-      (assignSelfValWith ⟨false, false, false, false⟩ (fun _ => []) #[] .heap v).toOption.map
+      (assignSelfValWith ⟨false, false, false, false, true, true⟩ (fun _ => []) #[] .heap v).toOption.map
           (fun v' => (valCmp (fun _ => []) #[] v' v, valHash (fun _ => []) #[] v')) = some (some (-1), 0) ∧
       valHash (fun _ => []) #[] v ≠ 0 ∧
       (assignSelfVal (fun _ => []) #[] .heap v).toOption.map
@@ -823,15 +893,16 @@ theorem C10_memswap_stale_cursor_refuted :
     runSwapProg staleCursorProg [1, 2, 3, 4, 5, 6] [11, 12, 13, 14, 15, 16] = some ([1, 2, 13, 14, 5, 6], [11, 12, 3, 4, 15, 16]) := by
   refine ⟨by decide, by decide, by decide +kernel, by decide +kernel, by decide⟩
 
-/-- **swap(a, b) exchanges the two values** (`memswap` of the two structs, as extracted from the source, run on the struct of
-    the value: a plain struct of any size is its bytes; any other struct — a number, a buffer pointer, the fields of a
-    container — is followed byte by byte): afterwards `a` holds what `b` held and vice versa, each object keeps its place and
-    allocation class, every other object is untouched; `swap(a, a)` changes nothing. -/
+/-- **swap(a, b) exchanges the two values** of two objects of one type (`SwapCompatible`: exactly the operands for which `swap`
+    does not raise TypeError) — `memswap` of the two structs, as extracted from the source, run on the struct of the value: a
+    plain struct of any size is its bytes; any other struct — a number, a buffer pointer, the fields of a container — is followed
+    byte by byte: afterwards `a` holds what `b` held and vice versa (for a String / Tuple: the buffer of the other, `buf`), each
+    object keeps its place and allocation class, every other object is untouched; `swap(a, a)` changes nothing. -/
 theorem C10_swap_exchanges (st : Store) (a b : Nat) (oa ob : Obj) (ha : st.get a = some oa) (hb : st.get b = some ob)
     (hc : SwapCompatible oa.val ob.val) :
-    ∃ st', swapObjs st a b = some st' ∧
-      st'.get a = some { oa with val := ob.val } ∧
-      st'.get b = some { ob with val := oa.val } ∧
+    ∃ st', swapObjs st a b = .ok st' ∧
+      st'.get a = some { oa with val := ob.val, buf := ob.buf } ∧
+      st'.get b = some { ob with val := oa.val, buf := oa.buf } ∧
       (∀ c, c ≠ a → c ≠ b → st'.get c = st.get c) := by
   have hla := Store.get_lt ha
   have hlb := Store.get_lt hb
@@ -840,44 +911,121 @@ theorem C10_swap_exchanges (st : Store) (a b : Nat) (oa ob : Obj) (ha : st.get a
     have : oa = ob := by rw [ha] at hb; exact Option.some.inj hb
     subst this
     exact ⟨st, by simp [swapObjs], ha, ha, fun c _ _ => rfl⟩
-  · have hv := swapVals_exchanges (fun x y h => C10_memswap_exchanges x y h) oa.val ob.val hc
-    have hs : swapObjs st a b = some ((st.setIfInBounds a (some { oa with val := ob.val })).setIfInBounds b
-        (some { ob with val := oa.val })) := by
-      simp only [swapObjs, hab, if_false, ha, hb, hv, Option.map_some]
+  · have hv := swapChecked_exchanges (fun x y h => C10_memswap_exchanges x y h) oa.val ob.val hc
+    have hs : swapObjs st a b = .ok ((st.setIfInBounds a (some { oa with val := ob.val, buf := ob.buf })).setIfInBounds b
+        (some { ob with val := oa.val, buf := oa.buf })) := by
+      simp only [swapObjs, hab, if_false, ha, hb, hv]; rfl
     refine ⟨_, hs, ?_, ?_, ?_⟩
     · rw [Store.get_set_other _ _ _ _ hab, Store.get_set_same _ _ _ hla]
     · rw [Store.get_set_same _ _ _ (by simpa using hlb)]
     · intro c hca hcb
       rw [Store.get_set_other _ _ _ _ hcb, Store.get_set_other _ _ _ _ hca]
 
-/-- hence the hashes are exchanged too (for a Tuple the hash is taken through the item pointers, which `swap` of two other
-    objects does not touch; stated here for values that hold their elements themselves) -/
+/-- **operands of two different types are refused**: `swap` raises TypeError (the test `type_of(self) is type_of(obj)` before
+    `memswap`) and the store is as it was — an Int and a Float, an Array and a List, an Int and a List exchange nothing -/
+theorem C10_swap_type_refused (st : Store) (a b : Nat) (oa ob : Obj) (ha : st.get a = some oa) (hb : st.get b = some ob)
+    (hab : a ≠ b) (hty : sameStruct oa.val ob.val = false) : swapObjs st a b = .error .typeError := by
+  simp only [swapObjs, hab, if_false, ha, hb, swapChecked_typeError _ _ hty]; rfl
+
+example : sameStruct (.sc (.int 1)) (.sc (.float 5)) = false ∧ sameStruct (.sc (.int 1)) (.seq .list .int [.int 3]) = false ∧
+    sameStruct (.seq .array .int []) (.seq .list .int []) = false ∧ sameStruct (.sc (.raw 5 [])) (.sc (.raw 6 [])) = false := by decide
+
+/-- the items of the Tuple (if `v` is one) are objects other than the two being swapped -/
+def TupleApart (a b : Nat) (v : Val) : Prop := ∀ ids, v = .tuple ids → a ∉ ids ∧ b ∉ ids
+
+theorem mapM_scalar_congr {st st' : Store} (ids : List Nat) (h : ∀ c ∈ ids, st'.get c = st.get c) :
+    ids.mapM st'.scalar = ids.mapM st.scalar := by
+  have hs : ∀ c ∈ ids, st'.scalar c = st.scalar c := fun c hc => by simp only [Store.scalar, h c hc]
+  clear h
+  induction ids with
+  | nil => rfl
+  | cons i is ih =>
+    simp only [List.mapM_cons, hs i (by simp)]
+    rw [ih (fun c hc => hs c (by simp [hc]))]
+
+theorem valHash_congr (addr : Nat → Bytes) {st st' : Store} (v : Val)
+    (h : ∀ ids, v = .tuple ids → ∀ c ∈ ids, st'.get c = st.get c) : valHash addr st' v = valHash addr st v := by
+  cases v with
+  | tuple ids => simp only [valHash, mapM_scalar_congr ids (h ids rfl)]
+  | sc _ => simp [valHash]
+  | seq k _ _ => cases k <;> simp [valHash]
+  | table _ _ _ => simp [valHash]
+  | tree _ _ _ => simp [valHash]
+
+/-- hence the hashes are exchanged too — Tuples included: a Tuple's hash is taken through its item pointers, which `swap` of
+    two other objects does not touch (`TupleApart`: the Tuple does not hold `a` or `b` itself as an item) -/
 theorem C10_swap_hashes (addr : Nat → Bytes) (st : Store) (a b : Nat) (oa ob : Obj)
     (ha : st.get a = some oa) (hb : st.get b = some ob) (hc : SwapCompatible oa.val ob.val)
-    (hta : ∀ ids, oa.val ≠ .tuple ids) (htb : ∀ ids, ob.val ≠ .tuple ids) :
-    ∃ st' na nb, swapObjs st a b = some st' ∧ st'.get a = some na ∧ st'.get b = some nb ∧
+    (hta : TupleApart a b oa.val) (htb : TupleApart a b ob.val) :
+    ∃ st' na nb, swapObjs st a b = .ok st' ∧ st'.get a = some na ∧ st'.get b = some nb ∧
       na.cls = oa.cls ∧ nb.cls = ob.cls ∧
       valHash addr st' na.val = valHash addr st ob.val ∧
       valHash addr st' nb.val = valHash addr st oa.val := by
-  obtain ⟨st', hs, h1, h2, _⟩ := C10_swap_exchanges st a b oa ob ha hb hc
+  obtain ⟨st', hs, h1, h2, h3⟩ := C10_swap_exchanges st a b oa ob ha hb hc
   refine ⟨st', _, _, hs, h1, h2, rfl, rfl, ?_, ?_⟩
-  · cases hv : ob.val with
-    | tuple ids => exact absurd hv (htb ids)
-    | sc _ => simp [valHash]
-    | seq k _ _ => cases k <;> simp [valHash]
-    | table _ _ _ => simp [valHash]
-    | tree _ _ _ => simp [valHash]
-  · cases hv : oa.val with
-    | tuple ids => exact absurd hv (hta ids)
-    | sc _ => simp [valHash]
-    | seq k _ _ => cases k <;> simp [valHash]
-    | table _ _ _ => simp [valHash]
-    | tree _ _ _ => simp [valHash]
+  · exact valHash_congr addr _ fun ids hv c hcm =>
+      h3 c (fun e => (htb ids hv).1 (e ▸ hcm)) (fun e => (htb ids hv).2 (e ▸ hcm))
+  · exact valHash_congr addr _ fun ids hv c hcm =>
+      h3 c (fun e => (hta ids hv).1 (e ▸ hcm)) (fun e => (hta ids hv).2 (e ▸ hcm))
 
-example : ∃ st', swapObjs #[some ⟨.stack, .sc (.int 1)⟩, some ⟨.heap, .sc (.int 2)⟩] 0 1 = some st' ∧
-    st'.get 0 = some ⟨.stack, .sc (.int 2)⟩ :=
-  let ⟨st', h, h0, _⟩ := C10_swap_exchanges _ 0 1 ⟨.stack, .sc (.int 1)⟩ ⟨.heap, .sc (.int 2)⟩ rfl rfl (by simp [SwapCompatible])
+example : ∃ st', swapObjs #[some ⟨.stack, .sc (.int 1), .heap⟩, some ⟨.heap, .sc (.int 2), .heap⟩] 0 1 = .ok st' ∧
+    st'.get 0 = some ⟨.stack, .sc (.int 2), .heap⟩ :=
+  let ⟨st', h, h0, _⟩ := C10_swap_exchanges _ 0 1 ⟨.stack, .sc (.int 1), .heap⟩ ⟨.heap, .sc (.int 2), .heap⟩ rfl rfl (by simp [SwapCompatible, sameStruct, Scalar.ty])
   ⟨st', h, h0⟩
+
+/-- two Tuples over other objects are `TupleApart` and `SwapCompatible` -/
+example : TupleApart 3 4 (.tuple [0, 1]) ∧ SwapCompatible (.tuple [0, 1]) (.tuple [2]) := by
+  refine ⟨fun ids h => ?_, by simp [SwapCompatible, sameStruct]⟩
+  cases h; simp
+
+/-! ### swap and the ownership of buffers (known finding KF-C10-swap-foreign-buffer) -/
+
+/-- the statement one would want: after `swap(a, b)` of two Strings (or Tuples) that could each be assigned to before, each can
+    still be assigned to — whatever their allocation classes. FALSE. -/
+def C10_swap_keeps_assignable_statement : Prop :=
+  ∀ (addr : Nat → Bytes) (st st' : Store) (a b : Nat) (oa ob na nb : Obj) (src : Val),
+    st.get a = some oa → st.get b = some ob → oa.ownsBuffer = true → ob.ownsBuffer = true →
+    swapObjs st a b = .ok st' → st'.get a = some na → st'.get b = some nb →
+    assignObj addr st' na src ≠ .error .undefined ∧ assignObj addr st' nb src ≠ .error .undefined
+
+/-- what is proved: when the two buffers lie in memory of one kind (`oa.buf = ob.buf`: both from the allocator — two heap
+    objects, a heap object and an element of an Array — or both not), or the values hold no buffer at all (numbers, plain
+    structs, Array, List, Table, Tree), both objects own their buffers after the swap as before: the next `assign` / `append` /
+    `push` / `del` hands `realloc` / `free` a pointer of the allocator's. -/
+theorem C10_swap_keeps_ownership_partial (st : Store) (a b : Nat) (oa ob : Obj) (ha : st.get a = some oa) (hb : st.get b = some ob)
+    (hc : SwapCompatible oa.val ob.val) (hoa : oa.ownsBuffer = true) (hob : ob.ownsBuffer = true)
+    (hbuf : oa.buf = ob.buf ∨ (oa.val.hasBuffer = false ∧ ob.val.hasBuffer = false)) :
+    ∃ st' na nb, swapObjs st a b = .ok st' ∧ st'.get a = some na ∧ st'.get b = some nb ∧
+      na.ownsBuffer = true ∧ nb.ownsBuffer = true := by
+  obtain ⟨st', hs, h1, h2, _⟩ := C10_swap_exchanges st a b oa ob ha hb hc
+  refine ⟨st', _, _, hs, h1, h2, ?_, ?_⟩
+  · rcases hbuf with e | ⟨_, e⟩
+    · have hsame : oa.val.hasBuffer = ob.val.hasBuffer := sameStruct_hasBuffer _ _ hc.1
+      simp only [Obj.ownsBuffer, ← hsame, ← e] at hoa hob ⊢
+      exact hoa
+    · simp [Obj.ownsBuffer, e]
+  · rcases hbuf with e | ⟨e, _⟩
+    · have hsame : oa.val.hasBuffer = ob.val.hasBuffer := sameStruct_hasBuffer _ _ hc.1
+      simp only [Obj.ownsBuffer, hsame, e] at hoa hob ⊢
+      exact hob
+    · simp [Obj.ownsBuffer, e]
+
+/-- non-vacuity: a heap String and a String that is an element of an Array (both buffers from the allocator) -/
+example : (⟨.heap, .sc (.str [97]), .heap⟩ : Obj).ownsBuffer = true ∧ (⟨.embedded, .sc (.str [98]), .heap⟩ : Obj).ownsBuffer = true ∧
+    (⟨.stack, .sc (.str [98]), .stack⟩ : Obj).ownsBuffer = true := by decide
+
+/-- **known finding KF-C10-swap-foreign-buffer**: `s = $S("abc")` (stack header, buffer not from the allocator), `h = new(String,
+    $S("xyzw"))`; `swap(s, h)` exchanges the two `val` pointers — the values are exchanged, as `C10_swap_exchanges` says — and leaves
+    the HEAP object `h` holding the literal's buffer: the next `assign(h, …)` / `append(h, …)` / `del(h)` calls `realloc` / `free` on
+    it (glibc: "realloc(): invalid pointer", abort). The same for `t = tuple(…)` against `new(Tuple, …)` and `push`. -/
+theorem C10_swap_foreign_buffer_refuted : ¬ C10_swap_keeps_assignable_statement := by
+  intro h
+  have := (h (fun _ => []) #[some ⟨.stack, .sc (.str [97, 98, 99]), .stack⟩, some ⟨.heap, .sc (.str [120, 121, 122, 119]), .heap⟩]
+    #[some ⟨.stack, .sc (.str [120, 121, 122, 119]), .heap⟩, some ⟨.heap, .sc (.str [97, 98, 99]), .stack⟩] 0 1
+    ⟨.stack, .sc (.str [97, 98, 99]), .stack⟩ ⟨.heap, .sc (.str [120, 121, 122, 119]), .heap⟩
+    ⟨.stack, .sc (.str [120, 121, 122, 119]), .heap⟩ ⟨.heap, .sc (.str [97, 98, 99]), .stack⟩ (.sc (.str [33]))
+    rfl rfl rfl rfl rfl rfl rfl).2
+  exact this rfl
 
 /-- 6-byte and 13-byte structs change sides -/
 example : swapScalars (.raw 6 [0x00, 0x1b, 0x44, 0x11, 0x3a, 0xb7]) (.raw 6 [0x52, 0x54, 0x00, 0x12, 0x34, 0x56]) =
@@ -887,7 +1035,7 @@ example : swapScalars (.raw 6 [0x00, 0x1b, 0x44, 0x11, 0x3a, 0xb7]) (.raw 6 [0x5
     swapScalars (.str [65]) (.str [66, 67]) = some (.str [66, 67], .str [65]) := by decide
 
 example : SwapCompatible (.sc (.raw 13 (List.replicate 13 7))) (.sc (.raw 13 (List.replicate 13 9))) := by
-  simp [SwapCompatible]
+  simp [SwapCompatible, sameStruct, Scalar.ty]
 
 /-! ## sort: every element move of `Array_Sort_Partition` is a `swap` -/
 
@@ -916,7 +1064,7 @@ example : arraySort (fun _ => []) [.raw 6 [3, 0, 0, 0, 0, 3], .raw 6 [1, 0, 0, 0
 example : SameSized [.raw 6 [3, 0, 0, 0, 0, 3], .raw 6 [1, 0, 0, 0, 0, 1]] := by
   intro x hx y hy
   simp only [List.mem_cons, List.mem_nil_iff, or_false] at hx hy
-  rcases hx with rfl | rfl <;> rcases hy with rfl | rfl <;> simp [SwapCompatible]
+  rcases hx with rfl | rfl <;> rcases hy with rfl | rfl <;> simp [SwapCompatible, sameStruct, Scalar.ty]
 
 end Cello.Hash
 
